@@ -413,7 +413,7 @@ def run(ctx):
                 Op = IterativeOperatorWInfo(Mop, algo)
                 Z = A.H @ B
                 Y = np.asarray(Op @ Z)
-                eps = get_precision(xnp, A.dtype) * max(A.shape)
+                eps = get_precision(xnp, xnp.float32 if f32 else xnp.float64) * max(A.shape)
                 res = float(np.abs(np.asarray(Mop.to_dense()) @ Y - np.asarray(Z)).max())
                 if res > (1e-2 if f32 else 1e-4) * max(1.0, float(np.abs(np.asarray(Z)).max())):
                     mism.append(dict(oracle_fail=False, case=case_js, failed_clauses=[f"the CG solve oracle leaves residual {res:.3g}"]))
